@@ -115,6 +115,19 @@ func (p *C09) Prepare(env *Env, tier string, seed uint64) error {
 
 func (p *C09) enumFlags(seed uint64) {
 	r := model.NewRand(seed, "C09/flags")
+	// the help paths of every command and group: -h, --help, `help <command>`
+	for _, path := range [][]string{{}, {"text"}, {"text", "parse"}, {"text", "conv"}, {"text", "conv", "degree"}, {"text", "conv", "syllable"},
+		{"write"}, {"write", "event"}, {"write", "parse"}, {"write", "conv"}, {"write", "play"}, {"info"}, {"info", "attr"}, {"info", "attr", "list"}, {"info", "attr", "describe"},
+		{"info", "chord"}, {"info", "chord", "list"}, {"info", "chord", "describe"}, {"info", "key"}, {"info", "key", "list"}, {"info", "key", "describe"}, {"info", "key", "conv"},
+		{"gen"}, {"gen", "attr"}, {"midi"}, {"midi", "port"}} {
+		for _, form := range [][]string{append(append([]string{}, path...), "--help"), append(append([]string{}, path...), "-h"), append([]string{"help"}, path...),
+			append(append([]string{"--debug"}, path...), "--help")} {
+			st := Step{Step: simrt.Step{Argv: form, Seed: r.U64(), Stdin: &simrt.Stream{Data: []byte("C[1]\n")}}}
+			p.cuts = append(p.cuts, &Case{Property: "C09", Kind: "single", Seed: seed, Run: 1_000_000 + len(p.cuts), Steps: []Step{st},
+				Labels: []string{"fault:F11:flag:--help", "help-enumeration"}})
+			p.nflag++
+		}
+	}
 	text := "C[1] G_7/B[1,1/2]{txt=hi} Am[2]"
 	dtext := "1[1] 5_7/7[1,1/2]{txt=hi} 6m[2]"
 	doc := goodInst + "- chord:\n    degree: \"5\"\n    name: \"7\"\n    base: \"3\"\n  values:\n    - \"1\"\n    - \"1/2\"\n  meta:\n    txt: hi\n- values:\n    - \"2\"\n"
@@ -659,6 +672,13 @@ func (p *C09) genNonsense(r *model.Rand) (*nonsense, []string) {
 	if r.Chance(1, 6) {
 		yamlPre = strings.Repeat(goodInst, 40+r.Intn(200))
 	}
+	if r.Chance(1, 10) {
+		// one physical line longer than common line buffers (64 KiB) before the
+		// nonsense: what comes after a long line is still part of the input
+		long := strings.Repeat("la ", 22000+r.Intn(3000))
+		yamlPre = "- chord:\n    degree: \"1\"\n    name: \"\"\n  values:\n    - \"1\"\n  meta:\n    lic: \"" + long + "\"\n"
+		pre = other + "[1] ;" + long + "\n"
+	}
 	yamlPost := ""
 	if r.Chance(1, 2) {
 		yamlPost = "- values:\n    - \"2\"\n"
@@ -791,6 +811,11 @@ func (p *C09) genNonsense(r *model.Rand) (*nonsense, []string) {
 	case 17:
 		txt := model.Pick(r, []string{"", " ", "\n", "; only a comment\n", "\t\n ; c\n"})
 		cmd := model.Pick(r, [][]string{{"text", "parse"}, {"text", "conv", "degree"}, {"text", "conv", "syllable"}})
+		if r.Chance(1, 4) {
+			// nothing at all, from /dev/null (a character device, like a terminal)
+			cmd = model.Pick(r, [][]string{{"text", "parse"}, {"text", "conv", "degree"}, {"text", "conv", "syllable"}, {"write"}, {"write", "event"}})
+			return mk("empty-piece", "text", 0, Step{Step: simrt.Step{Argv: cmd, Seed: seed, Stdin: &simrt.Stream{Data: []byte{}, Kind: "chardev"}}})
+		}
 		return mk("empty-piece", "text", 0, Step{Step: simrt.Step{Argv: cmd, Seed: seed, Stdin: &simrt.Stream{Data: []byte(txt)}}})
 	case 18:
 		doc := model.Pick(r, []string{"", "[]\n", "# nothing\n", "---\n", "null\n", "~\n"})
